@@ -5,8 +5,9 @@ import A2Verif.Lemmas.FsProdosBytes
 `Inv r` (decidable): every unit is a block of 512 bytes; the volume header's block count is the size of the image; the
 total reader reads the image as a well-formed (C03), leak-free (C04) volume; the volume directory has the standard
 geometry, consistent back links, at most 100 blocks, and its slots are as a2kit leaves them (an empty slot has a zero
-first byte; every entry is a file entry — *volumes without sub-directories*, the scope of the refinement proved so
-far; the master index block of a tree file uses only the 128 slots the format has).
+first byte; an entry is a file entry, or the entry of a sub-directory that holds file entries only — *one level of
+sub-directories*, the scope of the refinement proved so far; the master index block of a tree file uses only the 128 slots
+the format has).
 
 `SInv d`: the file-system object between two calls of the API — `Inv` of its image, the buffer closed (as after
 `from_img` or `get_img()`) or open and equal to what the image holds (as after `stat()`).
@@ -67,26 +68,73 @@ def UniformAcc (a : Nat) : Prop :=
 
 instance (a : Nat) : Decidable (UniformAcc a) := by unfold UniformAcc; infer_instance
 
-/-- a slot of the volume directory as a2kit leaves it: empty with a zero first byte, or a file entry (seedling, sapling,
-tree) with a uniform access byte whose master index block, if any, is clean -/
-def SlotOk (r : Raw) (x : Bytes × Nat × Nat) : Prop :=
+/-- a slot of a directory that holds nothing (zero first byte) or a file entry (seedling, sapling, tree) with a uniform access
+byte whose master index block, if any, is clean -/
+def FileSlotOk (r : Raw) (x : Bytes × Nat × Nat) : Prop :=
   x.1.getD 0 0 = 0 ∨
     ((x.1.getD 0 0 / 16 = 1 ∨ x.1.getD 0 0 / 16 = 2 ∨ x.1.getD 0 0 / 16 = 3) ∧ UniformAcc (x.1.getD 30 0) ∧
      (x.1.getD 0 0 / 16 = 3 → MasterClean (unitAt r (le16 x.1 0x11))))
 
-instance (r : Raw) (x : Bytes × Nat × Nat) : Decidable (SlotOk r x) := by unfold SlotOk; infer_instance
+instance (r : Raw) (x : Bytes × Nat × Nat) : Decidable (FileSlotOk r x) := by unfold FileSlotOk; infer_instance
+
+/-- the sub-directory with chain `sch` that the directory entry in slot `x` of the volume directory leads to: standard
+geometry, consistent back links, at most 100 blocks, a sub-directory header that names slot `x` as its parent entry, and file
+entries only (*one level of sub-directories*); the entry has a name -/
+def SubTail (r : Raw) (x : Bytes × Nat × Nat) (sch : List Nat) : Prop :=
+  x.1.getD 0 0 % 16 ≠ 0 ∧
+  StdGeo r (le16 x.1 0x11) ∧ PrevOk r 0 sch ∧ sch.length ≤ 100 ∧ (unitAt r (le16 x.1 0x11)).getD 4 0 / 16 = 0xE ∧
+  le16 (unitAt r (le16 x.1 0x11)) 39 = x.2.1 ∧ (unitAt r (le16 x.1 0x11)).getD 41 0 = x.2.2 ∧
+  ∀ y ∈ dirSlots r (le16 x.1 0x11) sch, FileSlotOk r y
+
+instance (r : Raw) (x : Bytes × Nat × Nat) (sch : List Nat) : Decidable (SubTail r x sch) := by
+  unfold SubTail StdGeo; infer_instance
+
+def SubOk (r : Raw) (total : Nat) (x : Bytes × Nat × Nat) : Prop :=
+  match dirChain r total 1000 (le16 x.1 0x11) [] with
+  | .ok sch => SubTail r x sch
+  | .error _ => False
+
+instance (r : Raw) (total : Nat) (x : Bytes × Nat × Nat) : Decidable (SubOk r total x) := by
+  unfold SubOk
+  cases dirChain r total 1000 (le16 x.1 0x11) [] with
+  | ok sch => exact inferInstanceAs (Decidable (SubTail r x sch))
+  | error e => exact isFalse id
+
+theorem SubOk.chain {r : Raw} {total : Nat} {x : Bytes × Nat × Nat} (h : SubOk r total x) :
+    ∃ sch, dirChain r total 1000 (le16 x.1 0x11) [] = .ok sch ∧ SubTail r x sch := by
+  unfold SubOk at h
+  cases hc : dirChain r total 1000 (le16 x.1 0x11) [] with
+  | ok sch => rw [hc] at h; exact ⟨sch, rfl, h⟩
+  | error e => rw [hc] at h; exact absurd h id
+
+theorem SubOk.of {r : Raw} {total : Nat} {x : Bytes × Nat × Nat} {sch : List Nat}
+    (hc : dirChain r total 1000 (le16 x.1 0x11) [] = .ok sch) (h : SubTail r x sch) : SubOk r total x := by
+  unfold SubOk; rw [hc]; exact h
+
+/-- a slot of the volume directory as a2kit leaves it: empty, a file entry, or the entry of a sub-directory of files -/
+def SlotOk (r : Raw) (total : Nat) (x : Bytes × Nat × Nat) : Prop :=
+  FileSlotOk r x ∨ (x.1.getD 0 0 / 16 = 0xD ∧ SubOk r total x)
+
+instance (r : Raw) (total : Nat) (x : Bytes × Nat × Nat) : Decidable (SlotOk r total x) := by unfold SlotOk; infer_instance
+
+/-- a slot that does not hold a directory entry -/
+theorem SlotOk.file {r : Raw} {total : Nat} {x : Bytes × Nat × Nat} (h : SlotOk r total x) (hst : x.1.getD 0 0 / 16 ≠ 0xD) :
+    FileSlotOk r x := by
+  rcases h with h | ⟨hd, _⟩
+  · exact h
+  · exact absurd hd hst
 
 /-- the volume directory with chain `ch` -/
 structure Root (r : Raw) (ch : List Nat) : Prop where
   geo : StdGeo r 2
   prev : PrevOk r 0 ch
   len : ch.length ≤ 100
-  slots : ∀ x ∈ dirSlots r 2 ch, SlotOk r x
+  slots : ∀ x ∈ dirSlots r 2 ch, SlotOk r (hdrTotal r) x
 
 instance (r : Raw) (ch : List Nat) : Decidable (Root r ch) :=
-  haveI : Decidable ((StdGeo r 2 ∧ PrevOk r 0 ch) ∧ (ch.length ≤ 100 ∧ ∀ x ∈ dirSlots r 2 ch, SlotOk r x)) := by
+  haveI : Decidable ((StdGeo r 2 ∧ PrevOk r 0 ch) ∧ (ch.length ≤ 100 ∧ ∀ x ∈ dirSlots r 2 ch, SlotOk r (hdrTotal r) x)) := by
     unfold StdGeo; infer_instance
-  decidable_of_iff ((StdGeo r 2 ∧ PrevOk r 0 ch) ∧ (ch.length ≤ 100 ∧ ∀ x ∈ dirSlots r 2 ch, SlotOk r x))
+  decidable_of_iff ((StdGeo r 2 ∧ PrevOk r 0 ch) ∧ (ch.length ≤ 100 ∧ ∀ x ∈ dirSlots r 2 ch, SlotOk r (hdrTotal r) x))
     ⟨fun h => ⟨h.1.1, h.1.2, h.2.1, h.2.2⟩, fun h => ⟨⟨h.geo, h.prev⟩, h.len, h.slots⟩⟩
 
 /-- **the on-disk invariant** -/
